@@ -490,7 +490,7 @@ func mutateHdr(r *hlib.Rand, h *HdrSpec) {
 }
 
 var goodChainIDs = []string{"testchain-1", "cosmoshub-4", "x", "a-b-c-9"}
-var oddChainIDs = []string{"", " ", "\t\n", " ", "  ", "　", " x ", "\u0085", "\xc2", "​"}
+var oddChainIDs = []string{"", " ", "\t\n", "\u00a0", "\u2003\u2003", "\u3000", " x ", "\u0085", "\u200b", "\u1680 \u2028\u2029\u202f\u205f", "\u00a0x"}
 
 func validTM(r *hlib.Rand) CSSpec {
 	return CSSpec{Kind: "tm", ChainID: hx(goodChainIDs[r.Intn(len(goodChainIDs))]), TLNum: 1, TLDen: 3,
@@ -512,7 +512,7 @@ func genCS(r *hlib.Rand, kind string) CSSpec {
 			case 2:
 				c.Trusting = []int64{0, -1, 1, c.Unbonding, c.Unbonding + 1, -1 << 62, 1<<63 - 1}[r.Intn(7)]
 			case 3:
-				c.Unbonding = []int64{0, -1, 1, 1<<63 - 1, -1 << 63 / 2}[r.Intn(5)]
+				c.Unbonding = []int64{0, -1, 1, 1<<63 - 1, -(1 << 62)}[r.Intn(5)]
 			case 4:
 				c.Drift = []int64{0, -1, 1}[r.Intn(3)]
 			case 5:
